@@ -78,6 +78,7 @@ def judge(ln):
     if ln.op != 'mesh.tris': return ('skip', 'leaf')
     R = ln.res
     if not R or R[0] == 'build-err': return ('skip', 'not-built')
+    if R[0] == 'trilist-differs': return ('fail', 'trilist-differs', 'get_trilist() does not return the triangles of the slots (%s)' % ' '.join(R[1:]))
     if R[0] != 'ok': return ('skip', 'not-ok-' + R[0])
     A = ln.args
     n = int(R[1])
